@@ -459,14 +459,18 @@ def check_C19(tier, nproc=None):
     for group in range(16):
         nmax = N if group in (0, 1, 2, 3, 4, 5, 6) else min(N, 6)
         for n in range(0, nmax + 1):
-            c.add(Job('vH_C19', [('bytes', 'd', n), ('int', group)], weight=3 ** n, opts=o))
+            c.add(Job('vH_C19', [('bytes', 'd', n), ('int', group), ('cbytes', b'')], weight=3 ** n, opts=o))
+            if group < 5 and 2 <= n <= 4:
+                c.add(Job('vH_C19', [('bytes', 'd', n), ('int', group), ('bytes', 'm', 2)], weight=3 ** (n + 2), opts=o))
     D = 'digit'
     T = [([b'"', 1, b'\\u', ('hex', 4), 1, b'"'], 5), ([b'"\\u', ('hex', 4), b'\\u', ('hex', 4), b'"'], 5), ([1, b'\\u', ('hex', 4), 1], 6),
          ([b'[[', 1, b'],{"', 1, b'":[', 1, b']}]'], 3), ([b'{"', 1, b'":[{"', 1, b'":', 1, b'}]}'], 4), ([b'[[[[', 1, b']]]]'], 0), ([b'[[[[', 1, b']]]]'], 2),
          ([(19, D), 1], 10), ([b'-', (19, D), 1], 10), ([(20, D), 1], 11), ([(1, D), b'.', (3, D), b'e', (2, D), 1], 15), ([(21, D), 1], 15)]
     for t, group in T:
         t = [((x[1], x[0]) if isinstance(x, tuple) and isinstance(x[0], str) else x) for x in t]
-        c.add(Job('vH_C19', [('tmpl', 'd', t), ('int', group)], weight=3000, opts=o))
+        c.add(Job('vH_C19', [('tmpl', 'd', t), ('int', group), ('cbytes', b'')], weight=3000, opts=o))
+        if group < 5:
+            c.add(Job('vH_C19', [('tmpl', 'd', t), ('int', group), ('bytes', 'm', 1)], weight=3000, opts=o))
     c.bounds = {'N': N, 'groups': 16, 'templates': [_tmplstr([((x[1], x[0]) if isinstance(x, tuple) and isinstance(x[0], str) else x) for x in t]) + ' g%d' % g for t, g in T]}
     c.must_reach = ['C19.warmed', 'C19.success']
     _std(c, ['allocation sites: the Go compiler\'s escape analysis (go build -gcflags=-m, regenerated each run) decides which make/new/conversion/boxing/closure sites heap-allocate; append beyond capacity, make(map) and fmt calls always do; a non-escaping []byte->string conversion allocates when longer than 32 bytes',
@@ -541,3 +545,48 @@ def confirm_float_allocs(c, sites):
                    'script': [], 'job': 'static scan of the float conversion closure', 'native': v[0] + ' ' + v[1]})
     else:
         c.unconfirmed.append({'what': 'float closure allocation sites %s' % sites, 'reason': 'native battery shows no allocation'})
+
+
+def check_C18(tier, nproc=None):
+    from . import c18
+    from gosym.driver import native_replay
+    c = Check('C18', tier, level='other')
+    # (b) dynamic footprint: symbolic runs that cover every entry point; a store into a package-level
+    # object raises the executor's 'global-write' event
+    N = 4 if tier == 'quick' else 6
+    o = {'float_contract': True}
+    for n in range(0, N + 1):
+        for which in range(4):
+            c.add(Job('vH_C16_inputs', [('bytes', 'd', n), ('int', which)], weight=4 ** n, opts=o))
+        c.add(Job('vH_C03', [('bytes', 'd', n), ('int', 0)], weight=4 ** n, opts=o))
+    c.must_reach = ['C16.inputs', 'C03.returned']
+    c.run_jobs(nproc)
+    # (a) static footprint over the SSA of the real packages
+    findings, nfuncs, summaries = c18.analyse(c.prog, {RJSON, FP})
+    events = sorted(set(e for r in c.results for e in r.get('events', []) if e.startswith('global-write')))
+    c.confirm()
+    breaches = findings + events
+    race = None
+    if breaches:
+        try:
+            out = native_replay([('race', [], 'vH_C18_race()')], race=True, timeout=900)
+            race = out.get('__race__') or out.get('race')
+        except Exception as e:
+            race = ('ERROR', str(e))
+        if race and race[0] in ('RACE', 'FAIL', 'PANIC'):
+            c._report({'kind': 'assert', 'what': 'C18.shared-mutable-state ' + '; '.join(breaches)[:400], 'pos': '', 'call': 'vH_C18_race()',
+                       'script': [], 'job': 'footprint analysis', 'native': '%s %s' % (race[0], race[1][:300])})
+        else:
+            c.unconfirmed.append({'what': 'footprint breach not confirmed by the race battery', 'breaches': breaches[:10], 'race': str(race)[:200]})
+    c.bounds = {'dynamic_runs_N': N}
+    c.extra_coverage['explanation'] = ('footprint lemma: (a) static taint analysis over the SSA of %d functions of rjson and internal/fp: no store, map update, copy/append target or '
+                                       'writing callee receives memory reachable from a package-level variable outside package init; (b) in the symbolic runs no store hit a package-level object. '
+                                       'Interleavings themselves are NOT explored: race freedom of calls sharing only read-only inputs follows from (a),(b) by the Go memory model (DRF-SC), cited.' % nfuncs)
+    c.extra_coverage['static_findings'] = findings
+    c.extra_coverage['dynamic_global_writes'] = events
+    c.extra_coverage['functions_scanned'] = nfuncs
+    c.extra_coverage['race_confirmation'] = str(race)[:300] if race else 'not needed (no breach)'
+    _std(c, ['Go memory model: data-race-free programs are sequentially consistent (cited, not checked)',
+             'sync.Pool is goroutine-safe and per ValueReader', 'the race battery only confirms a reported breach; it never decides'])
+    c.outside = ['schedules / interleavings (not explored)', 'synchronised global state (would be reported only if the race battery confirms)']
+    return c.finish()
